@@ -78,9 +78,15 @@ func parseRecipientsFile(name string) ([]age.Recipient, error) {
 		r, err := parseRecipient(line)
 		if err != nil {
 			if t, ok := sshKeyType(line); ok {
-				// Skip unsupported but valid SSH public keys with a warning.
-				warningf("recipients file %q: ignoring unsupported SSH key of type %q at line %d", name, t, n)
-				continue
+				// Skip unsupported but valid SSH public keys with a warning:
+				// key types we don't support, and well-formed ssh-rsa keys
+				// we refuse (too small). Any other failing line of a
+				// supported type is corrupted, not unsupported.
+				_, _, _, _, sshErr := ssh.ParseAuthorizedKey([]byte(line))
+				if (t != "ssh-rsa" && t != "ssh-ed25519") || (t == "ssh-rsa" && sshErr == nil) {
+					warningf("recipients file %q: ignoring unsupported SSH key of type %q at line %d", name, t, n)
+					continue
+				}
 			}
 			// Hide the error since it might unintentionally leak the contents
 			// of confidential files.
